@@ -29,7 +29,7 @@ class Gen:
                 elif kind == "chan":
                     objs.append((name, kind, [r.choice(["unb", "rdv", "cap:1", "cap:2"])]))
                 elif kind == "sem":
-                    objs.append((name, kind, [str(r.choice([0, 1, 1, 2, 3])), r.choice(["fair", "unfair"])]))
+                    objs.append((name, kind, [str(r.choice([0, 1, 1, 2, 3])), r.choice(["fair", "unfair"])] + (["const"] if r.chance(1, 3) else [])))
                 elif kind == "tls":
                     objs.append((name, kind, ["none"]))      # destructor kinds are fixed up below
                 elif kind in gen_tokio.KINDS:
@@ -614,9 +614,47 @@ class Gen:
             main.insert(r.below(len(main) + 1) if r.chance(1, 3) else 0, f"{'fspawn' if is_fut[k] else 'spawn'} {k}")
         if r.chance(1, 2):
             main.append("avail s0")
-        lines = [f"=== {name}", "config steps=none clocks=1", f"obj s0 sem {permits} {fair}"]
+        lines = [f"=== {name}", "config steps=none clocks=1", f"obj s0 sem {permits} {fair}" + (" const" if r.chance(1, 3) else "")]
         for k, b in enumerate(bodies):
             lines.append(f"task {k} {'future' if is_fut[k] else 'thread'}")
+            lines += ["  " + o for o in b]
+            lines.append("end")
+        lines.append(f"run {run}")
+        return lines
+
+    # ------------------------------------------------------------------ directed condvar shapes (profile flag "cvshape")
+    def program_cvshape(self, name, run):
+        """2–3 waiters on one condvar and 1–3 notify_one / notify_all calls issued by main and by a notifier task, some
+        of them between the arrivals of the waiters (yields stagger them); DFS explores the tree (a run stops at its
+        first deadlock, so the same program is also run under random schedulers)"""
+        r = self.r
+        nw = 2 + (1 if r.chance(2, 3) else 0)
+        bodies = [[]]
+        for k in range(1, nw + 1):
+            b = ["yield"] * r.below(3) + ["lock m0", "wait cv0 m0"]
+            if r.chance(1, 4):
+                b += ["wait cv0 m0"]
+            b += ["unlock m0"]
+            bodies.append(b)
+        def notifs():
+            out = []
+            for _ in range(1 + r.below(2)):
+                out.append("notify_all cv0" if r.chance(1, 5) else "notify_one cv0")
+                if r.chance(1, 2):
+                    out.append("yield")
+            return out
+        nt_body = ["yield"] * r.below(3) + notifs()
+        bodies.append(nt_body)
+        main = [f"spawn {k}" for k in range(1, len(bodies))]
+        if r.chance(1, 2):
+            main.reverse()
+        main += ["yield"] * r.below(3) + notifs()
+        if r.chance(1, 3):
+            main += ["notify_all cv0"]
+        bodies[0] = main
+        lines = [f"=== {name}", "config steps=none clocks=1", "obj m0 mutex 0", "obj cv0 condvar"]
+        for k, b in enumerate(bodies):
+            lines.append(f"task {k} thread")
             lines += ["  " + o for o in b]
             lines.append("end")
         lines.append(f"run {run}")
@@ -819,6 +857,11 @@ PROFILES = {
              "weights": {"send": 5, "recv": 4, "atomic": 1, "yield": 1},
              "min_tasks": 1, "extra_tasks": 2, "min_ops": 1, "extra_ops": 3},
     "chan_shape": {"chanshape": True, "dfs_iters": 1500, "objs": {}},
+    "cv_shape": {"cvshape": True, "replicate": 5, "replicate_iters": 8, "objs": {}},
+    # park / unpark tokens crossing other blocking primitives (a token must survive being blocked and unblocked elsewhere)
+    "park_mix": {"objs": {"mutex": (1, 1), "barrier": (0, 1), "chan": (0, 1), "atomic": (0, 1)},
+                 "weights": {"park": 4, "unpark": 5, "lock": 4, "barrier": 1, "send": 1, "recv": 1, "yield": 2},
+                 "min_tasks": 2, "extra_tasks": 1, "min_ops": 2, "extra_ops": 3},
     "sem_shape": {"semshape": True, "dfs_iters": 1200, "objs": {}},
     "poison_shape": {"poisonshape": True, "replicate": 8, "objs": {}},
     "chan_dl": {"objs": {"chan": (1, 2), "mutex": (0, 1)}, "dl": True, "parent0": (9, 10),
@@ -888,7 +931,7 @@ def batch(seed, profile, count, prefix, kinds=("random", "pct", "rr", "dfs")):
     g = Gen(rng, PROFILES[profile] if isinstance(profile, str) else profile)
     lines = []
     for i in range(count):
-        fn = g.program_semshape if g.p.get("semshape") else g.program_poisonshape if g.p.get("poisonshape") else g.program_chanshape if g.p.get("chanshape") else (g.program_async if g.p.get("async") else g.program)
+        fn = g.program_cvshape if g.p.get("cvshape") else g.program_semshape if g.p.get("semshape") else g.program_poisonshape if g.p.get("poisonshape") else g.program_chanshape if g.p.get("chanshape") else (g.program_async if g.p.get("async") else g.program)
         # directed shapes are small: explore their schedule trees (almost) exhaustively
         if g.p.get("replicate"):
             # every execution of these programs fails, and a run stops at its first failure: one schedule per run,
@@ -896,7 +939,9 @@ def batch(seed, profile, count, prefix, kinds=("random", "pct", "rr", "dfs")):
             one = fn(f"{prefix}{i}", "rr:1")
             for j in range(g.p["replicate"]):
                 c = rng.below(8)
-                run = "rr:1" if c == 0 else "dfs:1" if c == 1 else (f"pct:{rng.below(2**32)}:{1 + rng.below(4)}:1" if c < 4 else f"random:{rng.below(2**32)}:1")
+                n = g.p.get("replicate_iters", 1)      # (> 1 where most executions do not fail)
+                run = ("rr:1" if c == 0 else f"dfs:{40 * n if n > 1 else 1}" if c == 1 else
+                       (f"pct:{rng.below(2**32)}:{1 + rng.below(4)}:{n}" if c < 4 else f"random:{rng.below(2**32)}:{n}"))
                 lines += [one[0] + f"_{j}"] + one[1:-1] + [f"run {run}"]
             continue
         lines += fn(f"{prefix}{i}", runs_for(rng, ("dfs",) if g.p.get("dfs_iters") else kinds, g.p.get("dfs_iters")))
